@@ -52,14 +52,23 @@ pub static QUICK: std::sync::atomic::AtomicBool = std::sync::atomic::AtomicBool:
 /// untouched.
 pub fn core_dialect(cfg: &mut GenCfg) {
     cfg.max_width = 64;
+    // (all engines and compile-time evaluation treat the 1-bit result of a
+    // comparison of signed operands as signed — `(a <: b) + c`, `~(a <= b) >>> 1`
+    // — one more defect class; the core dialect is unsigned)
+    cfg.signed = false;
     cfg.sign_casts = false;
     cfg.casts = false;
     cfg.fill_lits = false;
+    // (a concatenation may be wider than 64 bits: wide intermediates are out)
+    cfg.concat = false;
     cfg.switch_expr = false;
     cfg.case_expr = false;
     cfg.dyn_selects = false;
     cfg.pow = false;
     cfg.known_per_mille = 0;
+    // every divisor / index guarded: no X domain (the engines and the
+    // reference disagree on `(x % 0) && 0`-like shapes, seed 39)
+    cfg.unguarded_per_mille = 0;
     for k in findings::NON_DEFAULT {
         cfg.avoid.insert(k.to_string());
     }
@@ -336,7 +345,7 @@ pub fn one_case(d: &mut Draw, eng: &Engines, single: bool, known_rate: u32) -> O
     let design = &g.design;
     let text = print_design(design);
     let stim = gen_stimulus(d, design, 8);
-    let use_cc = !eng.cc.is_empty() && d.chance(1, if BIG_TIER { 2 } else { 8 });
+    let use_cc = !eng.cc.is_empty() && d.chance(1, if BIG_TIER { 2 } else { 8 }) && !quick();
     let ct_vec = d.below_usize(stim.steps.len());
     let mut configs = eng.fast.clone();
     if use_cc {
@@ -522,7 +531,7 @@ pub fn run(ctx: &Ctx) {
     let eng = Engines::new();
     QUICK.store(ctx.is_quick(), std::sync::atomic::Ordering::Relaxed);
     if ctx.is_quick() {
-        ctx.assume("QUICK tier = core dialect: widths 1..64, no $signed/$unsigned, no `as` casts, no '0/'1, no switch/case expressions, no run-time part selects, no `**`, plus every known-defect shape of vdesign::findings replaced (counted as `excluded:*`); the wide dialect (widths to 300 and all of the above) is searched by the thorough tier, where the unchanged tree has many listed and unlisted engine defects");
+        ctx.assume("QUICK tier = core dialect: unsigned values of width 1..64, interpreter and JIT engines (2- and 4-state, with and without disable_ff_opt; the cc backend only in the thorough tier), no $signed/$unsigned, no `as` casts, no '0/'1, no concatenations, no switch/case expressions, no run-time part selects, no `**`, plus every known-defect shape of vdesign::findings replaced (counted as `excluded:*`); the wide dialect (widths to 300 and all of the above) is searched by the thorough tier, where the unchanged tree has many listed and unlisted engine defects");
     }
     ctx.note("engines", json!(eng.all().iter().map(config_label).collect::<Vec<_>>()));
     ctx.run_payloads("recorded", |p| {
